@@ -41,7 +41,7 @@ func runC19(c *Ctx) {
 		}
 		nRemove++
 		fn := e.Fn
-		path := describe(e.Call.Common().Args[0])
+		path := describe(argsOf(e.Call)[0])
 		// path = Join([dir, entry.Name()])
 		okPath := strings.HasPrefix(path, "path/filepath.Join([") && strings.Contains(path, "DirEntry).Name(") && strings.Contains(path, "os.ReadDir(")
 		r.Check("C19.clean-effects", "clean/removed path is a listed entry of the swept directory", m.Pos(e.Call.Pos()), okPath, "got "+path)
@@ -84,9 +84,9 @@ func runC19(c *Ctx) {
 	rot := m.Func("internal/counter", "file.rotate1")
 	okRot := false
 	for _, cs := range callsIn(rot, "fmt.Sprintf") {
-		f, _ := constOf(cs.Common().Args[0])
+		f, _ := constOf(argsOf(cs)[0])
 		if strings.HasSuffix(f, ".%s.count") {
-			d := describe(cs.Common().Args[1])
+			d := describe(argsOf(cs)[1])
 			okRot = strings.HasSuffix(strings.TrimSuffix(d, "]"), fmt.Sprintf("%q", fileVersion))
 		}
 	}
@@ -94,19 +94,19 @@ func runC19(c *Ctx) {
 	fw := m.Func("internal/upload", "uploader.findWork")
 	okFW := false
 	for _, cs := range callsIn(fw, "strings.HasSuffix") {
-		if k, _ := constOf(cs.Common().Args[1]); k == countSuffix {
+		if k, _ := constOf(argsOf(cs)[1]); k == countSuffix {
 			okFW = true
 		}
 	}
 	r.Check("C19.suffix-agreement", "findWork/counter file suffix", m.Pos(fw.Pos()), okFW, "the uploader selects counter files by "+countSuffix)
 	cr := m.Func("internal/upload", "uploader.createReport")
 	for _, cs := range callsIn(cr, "internal/upload.exclusiveWrite") {
-		d := describe(cs.Common().Args[0])
+		d := describe(argsOf(cs)[0])
 		r.Check("C19.suffix-agreement", "createReport/report name ends in .json", m.Pos(cs.Pos()), strings.HasSuffix(d, `".json")])`) && strings.Contains(d, "LocalDir("), "got "+d)
 	}
 	urc := m.Func("internal/upload", "uploader.uploadReportContents")
 	for _, cs := range callsIn(urc, "os.WriteFile") {
-		d := describe(cs.Common().Args[0])
+		d := describe(argsOf(cs)[0])
 		r.Check("C19.suffix-agreement", "uploadReportContents/marker name ends in .json", m.Pos(cs.Pos()), strings.HasSuffix(d, `".json")])`) && strings.Contains(d, "UploadDir("), "got "+d)
 	}
 	// complement: every other constant file name joined with LocalDir()/UploadDir() in library code matches no clean suffix
@@ -121,7 +121,7 @@ func runC19(c *Ctx) {
 			continue
 		}
 		for _, cs := range callsIn(fn, "path/filepath.Join") {
-			sl, ok := cs.Common().Args[0].(*ssa.Slice)
+			sl, ok := argsOf(cs)[0].(*ssa.Slice)
 			if !ok {
 				continue
 			}
@@ -330,7 +330,7 @@ func suffixGuard(v ssa.Value, seen map[ssa.Value]bool) bool {
 	switch x := v.(type) {
 	case *ssa.Call:
 		if calleeName(&x.Call) == "strings.HasSuffix" {
-			return isEntryName(x.Call.Args[0])
+			return isEntryName(argsOf(x)[0])
 		}
 		f := x.Call.StaticCallee()
 		if f == nil || f.Blocks == nil {
@@ -338,7 +338,7 @@ func suffixGuard(v ssa.Value, seen map[ssa.Value]bool) bool {
 		}
 		// helper: every non-false return lies under HasSuffix(param, ·) for a parameter bound to the entry name
 		var nameParams []*ssa.Parameter
-		for i, a := range x.Call.Args {
+		for i, a := range argsOf(x) {
 			if isEntryName(a) && i < len(f.Params) {
 				nameParams = append(nameParams, f.Params[i])
 			}
@@ -365,7 +365,7 @@ func suffixGuard(v ssa.Value, seen map[ssa.Value]bool) bool {
 			if !okRet {
 				if c2, isCall := strip(ret.Results[0]).(*ssa.Call); isCall && calleeName(&c2.Call) == "strings.HasSuffix" {
 					for _, p := range nameParams {
-						if c2.Call.Args[0] == ssa.Value(p) {
+						if argsOf(c2)[0] == ssa.Value(p) {
 							okRet = true
 						}
 					}
